@@ -39,7 +39,7 @@ def run(tier, seed):
             verdicts[r["verdict"]] = verdicts.get(r["verdict"], 0) + 1
             if r["verdict"] == "panic":
                 site = site_text(r.get("site") or "?")
-                ctx.violation({"site": site}, "panic", {"backend": be, "stream": srcs[i][0], "src": srcs[i][2], "msg": r.get("msg", "")[:200], "abstract": srcs[i][1]})
+                ctx.violation({"site": site, "stream": srcs[i][0]}, "panic", {"backend": be, "stream": srcs[i][0], "src": srcs[i][2], "msg": r.get("msg", "")[:200], "abstract": srcs[i][1]})
                 seen_sites.setdefault(site, 0)
                 seen_sites[site] += 1
             elif r["verdict"] not in ("ok", "err", "input_parse_error"):
